@@ -1445,6 +1445,10 @@ PIP_Decision_Node::solve(const PIP_Problem& pip,
   true_child = true_child->solve(pip, check_feasible_context,
                                  context_true, all_params, space_dim,
                                  indent_level + 1);
+  // The solution of the child may be a newly created node.
+  if (true_child != nullptr) {
+    true_child->set_parent(this);
+  }
 
   if (has_false_child) {
     // Decision nodes with false child must have exactly one constraint
@@ -1460,6 +1464,9 @@ PIP_Decision_Node::solve(const PIP_Problem& pip,
     false_child = false_child->solve(pip, check_feasible_context,
                                      context_false, all_params, space_dim,
                                      indent_level + 1);
+    if (false_child != nullptr) {
+      false_child->set_parent(this);
+    }
   }
 
   if (true_child == nullptr && false_child == nullptr) {
